@@ -21,6 +21,20 @@ from sa.core.report import Report  # noqa: E402
 PROPS = ["C%02d" % i for i in range(1, 21)]
 
 
+def analyse(prop, tier, root, overlay=None, seed=0):
+    """Run the rules of one property and return the Report (nothing printed or written)."""
+    rep = Report(prop, tier, root, seed)
+    try:
+        mod = importlib.import_module("sa.props.%s" % prop)
+        idx = Index(root, overlay)
+        mod.run(idx, rep, tier)
+    except AnalysisError as e:
+        rep.error(str(e))
+    except Exception:
+        rep.error("internal error: " + traceback.format_exc().strip().replace("\n", " | "))
+    return rep
+
+
 def run(prop, tier, root, write=True, seed=0, only_key=None):
     rep = Report(prop, tier, root, seed)
     try:
@@ -57,11 +71,10 @@ def main(argv=None):
         with open(a.replay) as f:
             only = json.load(f)["key"]
     try:
-        status = run(a.prop, a.tier, a.root, write=not a.no_write and not a.replay, seed=seed, only_key=only)
-        if a.tier == "thorough" and not a.replay and status == 0:
+        if a.tier == "thorough" and not a.replay:
             from sa.selftest import harness
-            status = harness.run_for_property(a.prop, a.root, seed)
-        return status
+            return harness.run_thorough(a.prop, a.root, seed, write=not a.no_write)
+        return run(a.prop, a.tier, a.root, write=not a.no_write and not a.replay, seed=seed, only_key=only)
     except Exception:
         print("ANALYSIS-ERROR property=%s %s" % (a.prop, traceback.format_exc().strip().replace("\n", " | ")))
         return 2
